@@ -176,6 +176,29 @@ def edge_templates():
                         ("post", op, ("call", V("f"), []))])
             out.append([("fndecl", "g", [("it", fn((), tup(BOOL, elem)))], ANY, [("return", ("post", op, V("it")))]),
                         ("call", V("g"), [("post", "iter", ("array", []))])])
+    # hand-written iterators whose DECLARED result is a union of pair types (not a pair of a union): every operator that
+    # builds a new iterator on top must give it a tag that still matches the static type of the expression
+    UIT = fn((), multi(tup(BOOL, INT), tup(BOOL, STR)))
+    mk_src = [("set", "n", ("mut", INT, I(0))),
+              ("fndecl", "src", [], multi(tup(BOOL, INT), tup(BOOL, STR)),
+               [("assign", "add", V("n"), I(1)),
+                ("if", ("bin", "eq", ("pre", "deref", V("n")), I(1)), ("block", [("return", ("tuple", [("true",), I(7)]))]), None),
+                ("if", ("bin", "eq", ("pre", "deref", V("n")), I(2)), ("block", [("return", ("tuple", [("true",), ("s", "x")]))]), None),
+                ("return", ("tuple", [("false",), I(0)]))])]
+    US = multi(INT, STR)
+    built = {
+        "filter": ("bin", "filter", V("src"), ("fn", [("v", US)], BOOL, [("return", ("true",))])),
+        "map": ("bin", "map", V("src"), ("fn", [("v", US)], US, [("return", V("v"))])),
+        "tfilter": ("tfilter", V("src"), INT),
+        "filter-filter": ("bin", "filter", ("bin", "filter", V("src"), ("fn", [("v", US)], BOOL, [("return", ("true",))])), ("fn", [("v", US)], BOOL, [("return", ("true",))])),
+    }
+    for nm, e in built.items():
+        out.append(mk_src + [("set", "it", e), ("set", "first", ("call", V("it"), [])), ("tuple", [V("first"), ("post", "collect", V("it"))])])
+        out.append(mk_src + [("fndecl", "use", [("k", UIT)], ANY, [("return", ("post", "collect", V("k")))]), ("set", "it", e),
+                             ("ifset", "k", UIT, V("it"), ("block", [("call", V("use"), [V("k")])]), ("block", [("s", "not an iterator of the static type")]))])
+    for e in (("post", "collect", V("src")), ("bin", "partition", V("src"), ("fn", [("v", US)], BOOL, [("return", ("true",))])),
+              ("reduce", V("src"), I(0), ("fn", [("a", INT), ("v", US)], INT, [("return", ("bin", "add", V("a"), I(1)))]))):
+        out.append(mk_src + [e])
     tail = []
     for c in (("true",), ("false",)):
         tail.append([("fndecl", "hb", [("v", BOOL)], BOOL, [("return", V("v"))]), ("set", "r", ("if", ("call", V("hb"), [c]), ("block", [I(1)]), None)), V("r")])
